@@ -1,6 +1,7 @@
 (* C09 -- proofs for Shape/Extra.v: every statement is for all shapes / all bindings of the symbols. *)
 From Coq Require Import String ZArith List Bool Lia ZifyBool.
 Require Import OV.Shape.SymDim OV.Shape.SymDimProofs OV.Shape.PartialEval OV.Shape.PartialEvalProofs OV.Shape.Extra.
+Require Import OV.Shape.Materialize OV.Shape.MaterializeProofs.
 Import ListNotations.
 Open Scope Z_scope.
 Ltac Zify.zify_post_hook ::= Z.to_euclidean_division_equations.
@@ -174,6 +175,111 @@ Proof.
   rewrite <- Z0. apply set_nth_self.
 Qed.
 
+(* ---- repaired evaluator: the dropped operands are compatible with a kept reference, at every binding ------------- *)
+Lemma compatible_refl : forall ax a, compatible ax a a = true.
+Proof. unfold compatible. intros. rewrite Nat.eqb_refl, forallb2_zeqb_refl. reflexivity. Qed.
+
+Lemma compatible_sym : forall ax a b, compatible ax a b = true -> compatible ax b a = true.
+Proof. intros ax a b H. eapply compatible_trans; [exact H|apply compatible_refl]. Qed.
+
+Lemma compatible_trans' : forall ax a b c, compatible ax a b = true -> compatible ax b c = true -> compatible ax a c = true.
+Proof. intros ax a b c H1 H2. eapply compatible_trans; [apply compatible_sym; exact H1|exact H2]. Qed.
+
+Lemma kept_in : forall ops c, In (true, c) ops -> In c (kept ops).
+Proof.
+  unfold kept. intros ops c H. apply in_map_iff. exists (true, c). split; [reflexivity|].
+  apply filter_In. split; [assumption|reflexivity].
+Qed.
+
+Lemma in_kept : forall ops c, In c (kept ops) -> In c (map snd ops).
+Proof.
+  unfold kept. intros ops c H. apply in_map_iff in H as [[k c'] [E H]]. simpl in E. subst.
+  apply filter_In in H as [H _]. apply in_map_iff. exists (k, c). auto.
+Qed.
+
+Definition droppable_ref (ax : nat) (ref : list Z) (ops : list (bool * list Z)) : Prop :=
+  Forall (fun p => fst p = false -> nth ax (snd p) 0 = 0 /\ compatible ax ref (snd p) = true) ops.
+
+Lemma droppable_ref_droppable : forall ax ref ops, droppable_ref ax ref ops -> droppable ax ops.
+Proof. unfold droppable_ref, droppable. intros ax ref ops H. eapply Forall_impl; [|exact H]. simpl. intros p Hp E. apply Hp. assumption. Qed.
+
+Lemma concat_shape_some : forall axis cs r, concat_shape axis cs = Some r ->
+  exists c0 rest ax, cs = c0 :: rest /\ norm_axis (Z.of_nat (List.length c0)) axis = Some ax /\
+    forallb (compatible ax c0) cs = true /\ r = set_nth c0 ax (fold_right Z.add 0 (map (fun c => nth ax c 0) cs)).
+Proof.
+  unfold concat_shape. intros axis [|c0 rest] r H; [discriminate|].
+  destruct (norm_axis (Z.of_nat (List.length c0)) axis) as [ax|] eqn:EA; [|discriminate].
+  destruct (forallb (compatible ax c0) (c0 :: rest)) eqn:EC; [|discriminate].
+  inversion H. exists c0, rest, ax. auto.
+Qed.
+
+Lemma concat_drop_backward : forall axis ops ref ax r,
+  In (true, ref) ops -> norm_axis (Z.of_nat (List.length ref)) axis = Some ax -> droppable_ref ax ref ops ->
+  concat_shape axis (kept ops) = Some r -> concat_shape axis (map snd ops) = Some r.
+Proof.
+  intros axis ops ref ax r Hin EA D H.
+  destruct (concat_shape_some _ _ _ H) as (k0 & krest & ax' & EK & EA' & EC & Er).
+  assert (Hk : forall c, In c (kept ops) -> compatible ax' k0 c = true) by (rewrite forallb_forall in EC; exact EC).
+  assert (Cref : compatible ax' k0 ref = true) by (apply Hk, kept_in; assumption).
+  rewrite (compatible_len _ _ _ Cref) in EA'. rewrite EA in EA'. inversion EA'; subst ax'. clear EA'.
+  assert (Hall : forall c, In c (map snd ops) -> compatible ax k0 c = true).
+  { intros c Hc. apply in_map_iff in Hc as [[k c'] [E Hc]]. simpl in E. subst c'.
+    destruct k; [apply Hk, kept_in; assumption|].
+    unfold droppable_ref in D. rewrite Forall_forall in D. destruct (D _ Hc eq_refl) as [_ C].
+    eapply compatible_trans'; eauto. }
+  destruct (map snd ops) as [|c0 rest] eqn:E0.
+  { apply (in_map snd) in Hin. rewrite E0 in Hin. destruct Hin. }
+  assert (C0 : compatible ax k0 c0 = true) by (apply Hall; left; reflexivity).
+  unfold concat_shape. rewrite <- (compatible_len _ _ _ C0), (compatible_len _ _ _ Cref), EA.
+  assert (forallb (compatible ax c0) (c0 :: rest) = true) as ->.
+  { apply forallb_forall. intros c Hc. eapply compatible_trans; [exact C0|apply Hall; assumption]. }
+  f_equal. subst r. rewrite <- E0, <- (sum_kept ax ops (droppable_ref_droppable _ _ _ D)), EK.
+  symmetry. apply compatible_set. assumption.
+Qed.
+
+(* With the repaired evaluator the Concat of the kept operands accepts EXACTLY the shapes the original accepts and gives
+   the same output shape (equality of options), for every axis, rank and number of operands *)
+Theorem concat_drop_fixed_accepts_exactly : forall axis ops ref ax,
+  In (true, ref) ops -> norm_axis (Z.of_nat (List.length ref)) axis = Some ax -> droppable_ref ax ref ops ->
+  concat_shape axis (kept ops) = concat_shape axis (map snd ops).
+Proof.
+  intros axis ops ref ax Hin EA D.
+  destruct (concat_shape axis (kept ops)) as [r|] eqn:EK.
+  - symmetry. eapply concat_drop_backward; eauto.
+  - destruct (concat_shape axis (map snd ops)) as [r|] eqn:E0; [|reflexivity].
+    assert (K : kept ops <> []) by (intro E; pose proof (kept_in _ _ Hin) as I; rewrite E in I; destruct I).
+    destruct (concat_shape_some _ _ _ E0) as (c0 & rest & ax' & Ec & EA' & EC & Er).
+    assert (Cref : compatible ax' c0 ref = true).
+    { rewrite forallb_forall in EC. apply EC. apply in_map_iff. exists (true, ref). auto. }
+    rewrite (compatible_len _ _ _ Cref), EA in EA'. inversion EA'; subst ax'.
+    rewrite (concat_drop_shape_sound axis ops r E0) in EK; [discriminate| |assumption].
+    intros ax2 H2. subst r. rewrite set_nth_len, (compatible_len _ _ _ Cref), EA in H2. inversion H2; subst.
+    eapply droppable_ref_droppable; eauto.
+Qed.
+
+(* the symbolic test of the repaired evaluator implies the concrete hypothesis at every binding *)
+Lemma set_nth_denotes : forall rho a ca ax, shape_denotes rho a ca -> shape_denotes rho (set_nth a ax (DInt 0)) (set_nth ca ax 0).
+Proof.
+  intros rho a ca ax H. revert ax. induction H as [|d n a ca D F IH]; intros [|ax]; simpl; constructor; simpl; auto; apply IH.
+Qed.
+
+Lemma forallb2_same_dim_sound : forall rho a b ca cb, forallb2 same_dim a b = true ->
+  shape_denotes rho a ca -> shape_denotes rho b cb -> ca = cb.
+Proof.
+  intros rho a b ca cb H Ha. revert b cb H. induction Ha as [|d n a ca D F IH]; intros [|e b] cb H Hb; simpl in H; try discriminate.
+  - inversion Hb. reflexivity.
+  - inversion Hb as [|? m ? cb' D' F']; subst. apply andb_true_iff in H as [E1 E2]. f_equal; [eapply same_dim_sound; eauto|eauto].
+Qed.
+
+Theorem keq_except_sound : forall ax a b, keq_except ax a b = true ->
+  forall rho ca cb, shape_denotes rho a ca -> shape_denotes rho b cb -> compatible ax ca cb = true.
+Proof.
+  unfold keq_except, compatible. intros ax a b H rho ca cb Ha Hb.
+  pose proof (forallb2_same_dim_sound rho _ _ _ _ H (set_nth_denotes rho a ca ax Ha) (set_nth_denotes rho b cb ax Hb)) as E.
+  rewrite E, forallb2_zeqb_refl, andb_true_r. apply Nat.eqb_eq.
+  rewrite <- (set_nth_len ca ax 0), E, set_nth_len. reflexivity.
+Qed.
+
 (* "accepts exactly the same inputs" is FALSE for this simplification: x:[2,0], y:[3,2], axis=1 is rejected by Concat
    (dim 0 differs) and accepted once the empty operand is gone (x annotated [N,0], y annotated [M,2]; N=2, M=3) *)
 Theorem concat_drop_accepts_exactly_refuted : exists axis ops r,
@@ -328,4 +434,80 @@ Proof.
   - assert (K : (n + s - 1) / s = q + 1) by (symmetry; apply Z.div_unique with (r := m - 1); lia). rewrite K.
     assert (0 <= q) by (subst q; apply Z.div_pos; lia).
     rewrite sum_app, sum_repeat. simpl. rewrite Z2Nat.id by lia. split; lia.
+Qed.
+
+(* ---- Flatten2Reshape: no constant Reshape target is right for every input of rank 4 ------------------------------------
+   Flatten(x, axis=1) on x:[N,C1,C2,C3] (all symbolic; the repository tests test_flatten_to_reshape_dynamic_input_1/_5
+   require the rule to fire there and to leave a single Reshape whose target is an initializer): whatever two-entry
+   constant [a; b] is emitted, with either value of allowzero, some non-negative input shape of rank 4 gets a different
+   result or is rejected.  So the finding cannot be repaired by emitting a better constant; only by refusing, or by computing
+   the target at run time (which those tests exclude). *)
+Lemma resolve0_keeps : forall az c cx r, resolve0 az cx c = Some r -> Forall2 (fun d v => d <> 0 -> v = d) c r.
+Proof.
+  induction c as [|d c IH]; intros cx r H; simpl in H.
+  - inversion H. constructor.
+  - destruct ((d =? 0) && negb az) eqn:EB.
+    + destruct cx as [|x cx']; [discriminate|]. simpl in H.
+      destruct (resolve0 az cx' c) as [r'|] eqn:E2; [|discriminate]. inversion H; subst.
+      constructor; [intro; lia|eauto].
+    + destruct (resolve0 az (tl cx) c) as [r'|] eqn:E2; [|discriminate]. inversion H; subst.
+      constructor; [reflexivity|eauto].
+Qed.
+
+Lemma keeps_map : forall q c r, Forall2 (fun d v => d <> 0 -> v = d) c r ->
+  Forall2 (fun d v => 0 < d -> v = d) c (map (fun d => if d =? -1 then q else d) r).
+Proof.
+  induction 1 as [|d v c r H F IH]; simpl; constructor; [|assumption].
+  intro P. rewrite (H ltac:(lia)). destruct (d =? -1) eqn:E; [lia|reflexivity].
+Qed.
+
+Lemma keeps_weaken : forall c r, Forall2 (fun d v => d <> 0 -> v = d) c r -> Forall2 (fun d v => 0 < d -> v = d) c r.
+Proof. induction 1; constructor; auto. intro. apply H. lia. Qed.
+
+(* a positive entry of the target is the output dim, whatever the input is *)
+Lemma reshape_out_pos : forall az cx c r, reshape_out az cx c = Some r -> Forall2 (fun d v => 0 < d -> v = d) c r.
+Proof.
+  unfold reshape_out. intros az cx c r H.
+  destruct (existsb (fun d => d <? -1) c); [discriminate|].
+  destruct (Nat.ltb 1 (count_m1 c)); [discriminate|].
+  destruct (az && existsb (fun d => d =? 0) c && Nat.ltb 0 (count_m1 c)); [discriminate|].
+  destruct (resolve0 az cx c) as [r0|] eqn:E; [|discriminate].
+  apply resolve0_keeps in E.
+  destruct (Nat.eqb (count_m1 c) 0).
+  - destruct (zprod r0 =? zprod cx); inversion H; subst. apply keeps_weaken. assumption.
+  - destruct (zprod (filter (fun d => negb (d =? -1)) r0) =? 0); [discriminate|].
+    destruct (zprod cx mod zprod (filter (fun d => negb (d =? -1)) r0) =? 0); inversion H; subst.
+    apply keeps_map. assumption.
+Qed.
+
+Lemma nonneg4 : forall a b c d, 0 <= a -> 0 <= b -> 0 <= c -> 0 <= d -> Forall (fun n => 0 <= n) [a; b; c; d].
+Proof. intros. repeat constructor; assumption. Qed.
+
+Theorem flatten_no_constant_target : forall az a b, exists cx,
+  List.length cx = 4%nat /\ Forall (fun n => 0 <= n) cx /\ reshape_out az cx [a; b] <> Some (flatten_out cx 1).
+Proof.
+  intros az a b.
+  assert (POS : forall cx r0 r1, reshape_out az cx [a; b] = Some [r0; r1] -> (0 < a -> r0 = a) /\ (0 < b -> r1 = b)).
+  { intros cx r0 r1 H. apply reshape_out_pos in H. inversion H as [|? ? ? ? Ha F]; subst. inversion F; subst. auto. }
+  destruct (Z_lt_dec 0 a) as [Pa|Na].
+  { (* a positive: it cannot be both 1 and 2 *)
+    destruct (Z.eq_dec a 1) as [->|N1].
+    - exists [2; 1; 1; 1]. split; [reflexivity|]. split; [apply nonneg4; lia|]. intro H. apply POS in H. destruct H as [H _]. specialize (H ltac:(lia)). discriminate.
+    - exists [1; 1; 1; 1]. split; [reflexivity|]. split; [apply nonneg4; lia|]. intro H. apply POS in H. destruct H as [H _]. specialize (H Pa). simpl in H. lia. }
+  destruct (Z_lt_dec 0 b) as [Pb|Nb].
+  { destruct (Z.eq_dec b 1) as [->|N1].
+    - exists [1; 2; 1; 1]. split; [reflexivity|]. split; [apply nonneg4; lia|]. intro H. apply POS in H. destruct H as [_ H]. specialize (H ltac:(lia)). discriminate.
+    - exists [1; 1; 1; 1]. split; [reflexivity|]. split; [apply nonneg4; lia|]. intro H. apply POS in H. destruct H as [_ H]. specialize (H Pb). simpl in H. lia. }
+  (* both entries are <= 0: an entry < -1 is rejected outright; -1 / 0 are finitely many targets *)
+  destruct (Z_lt_dec a (-1)) as [La|La].
+  { exists [1; 1; 1; 1]. split; [reflexivity|]. split; [apply nonneg4; lia|].
+    unfold reshape_out. simpl. destruct (a <? -1) eqn:E; [simpl; discriminate|lia]. }
+  destruct (Z_lt_dec b (-1)) as [Lb|Lb].
+  { exists [1; 1; 1; 1]. split; [reflexivity|]. split; [apply nonneg4; lia|].
+    unfold reshape_out. simpl. destruct (b <? -1) eqn:E; [rewrite orb_true_r; simpl; discriminate|lia]. }
+  assert (Ca : a = -1 \/ a = 0) by lia. assert (Cb : b = -1 \/ b = 0) by lia.
+  destruct Ca as [-> | ->], Cb as [-> | ->], az;
+    first [ (exists [1; 1; 2; 1]; split; [reflexivity|]; split; [apply nonneg4; lia|]; vm_compute; discriminate)
+          | (exists [0; 1; 1; 1]; split; [reflexivity|]; split; [apply nonneg4; lia|]; vm_compute; discriminate)
+          | (exists [1; 1; 1; 1]; split; [reflexivity|]; split; [apply nonneg4; lia|]; vm_compute; discriminate) ].
 Qed.
